@@ -594,7 +594,7 @@ BuildUnary(a, t) ==
              BErr(IF ks.exc = "NotImplementedError" THEN "RuntimeError" ELSE ks.exc)
            \* [S10] original code: sort_fn(keys) - `reverse` is ignored
            ELSE LET rv == a.rev /\ "S10" \notin Unfixed
-                    Less(x, y) == IF rv THEN StrLess(y, x) ELSE StrLess(x, y)
+                    Less(x, y) == IF rv THEN StrLessBy(Sfn(a), y, x) ELSE StrLessBy(Sfn(a), x, y)
                     so == StableSort(ks.ks, Less)
                 IN IF so = <<>> THEN GetSlice(ILForm(<<>>, "list"), t)
                    ELSE GetSlice(KLForm(so, "list"), t)
@@ -602,7 +602,7 @@ BuildUnary(a, t) ==
            LET r == It(OMap([nm |-> "key", kf |-> a.key], t), FALSE) IN
            IF r.exc # "none" THEN BErr(r.exc)
            ELSE LET prs == [j \in 1..Len(r.items) |-> <<r.items[j].n, j>>]
-                    Lt(x, y) == x[1] < y[1] \/ (x[1] = y[1] /\ x[2] < y[2])
+                    Lt(x, y) == IntLessBy(Sfn(a), x[1], y[1]) \/ (x[1] = y[1] /\ x[2] < y[2])
                     Less(x, y) == IF a.rev THEN Lt(y, x) ELSE Lt(x, y)
                     srt == StableSort(prs, Less)
                 IN GetSlice(ILForm([j \in 1..Len(srt) |-> srt[j][2] - 1], "list"), t)
